@@ -15,6 +15,7 @@ import (
 	"verif/gen/datagen"
 	"verif/gen/debgen"
 	"verif/gen/dmggen"
+	"verif/gen/dngen"
 	"verif/gen/machogen"
 	"verif/gen/manifestgen"
 	"verif/gen/ocigen"
@@ -51,6 +52,20 @@ var bundleKeys = []keyDef{
 	{"rsaAkeyfirst", "rsa2048/certificate-file-starting-with-a-private-key-block", true, true},
 	{"rsaAstale", "rsa2048/certificate-file-with-superseded-intermediate-listed-first", true, true},
 }
+
+// key rsaA behind a leaf certificate (and an issuing authority) whose subject and
+// issuer names are written the way tools other than Go's crypto/x509 write
+// distinguished names: one configuration key per shape of gen/dngen (files
+// fixtures/keys/names/<shape>.{chain,leaf}.crt, generator cmd/certgen/names)
+const nameKeyPrefix = "rsaAdn-"
+const nameKeyDir = relicx.KeyDir + "/names"
+
+var nameKeys = func() (out []keyDef) {
+	for _, sh := range dngen.Shapes() {
+		out = append(out, keyDef{nameKeyPrefix + sh.Name, "rsa2048/certificate-names-written-with-" + sh.Desc, true, true})
+	}
+	return
+}()
 
 var x509Keys = []keyDef{keyRSA, keyP256, keyP384, keyP521, keyPGPOnly}
 var pgpKeys = []keyDef{keyRSA, keyP256, keyPGPOnly}
